@@ -785,8 +785,10 @@ func (w *world) runConcGroup(g *concGroup) {
 		if c.spec.role == roleAC {
 			continue
 		}
-		if c.spec.role == roleCancelled && c.err != nil {
-			continue // gave up: no answer to judge
+		if c.spec.role == roleCancelled {
+			// the client gave up on this call: whatever it would have been told, nobody reads it (a call that was
+			// cancelled while its backend checks were in flight may complete "OK" with those digests unresolved)
+			continue
 		}
 		// Which disturbing calls ended while this one was in flight, sharing a held digest?
 		over, after := false, false
